@@ -142,7 +142,11 @@ func genWant(r *drv.Rng, res []*Res, ignOp, incSerr bool) *Res {
 	case x < 9 && !ignOp:
 		w.OpID += 7
 	case incSerr:
-		w.SErr += "x"
+		if w.SErr != "" && r.Chance(1, 2) {
+			w.SErr = "" // wanted: no server error text at all
+		} else {
+			w.SErr += "x"
+		}
 	default:
 		w.CErr += "x"
 	}
@@ -245,7 +249,7 @@ func genGWant(r *drv.Rng, es []*Ent) *Ent {
 }
 
 func genSt(r *drv.Rng) *St {
-	if r.Chance(1, 10) {
+	if r.Chance(1, 6) {
 		return &St{Plain: true, Msg: "x"}
 	}
 	s := &St{Code: drv.Pick(r, codesIn...), Msg: drv.Pick(r, msgs...)}
@@ -310,6 +314,13 @@ func genErrCase(r *drv.Rng, k string) Case {
 	}
 	if r.Chance(1, 40) {
 		w.Code = 0
+	}
+	for _, e := range recv {
+		if e.Plain && r.Chance(1, 2) {
+			// a receive error that is not a gRPC status, and a want it would satisfy if it were read as one
+			// (code Unknown, message unchecked or equal to the error text)
+			w = &St{Code: 2, Msg: drv.Pick(r, "", "not a status: "+e.Msg)}
+		}
 	}
 	c.SWant = w
 	return c
@@ -384,7 +395,9 @@ func fixedCases() []Case {
 			if kind == "nokey" {
 				miss.Det.Type = 2
 			}
-			for _, w := range []*Res{same, miss} {
+			noText := &Res{OpID: 1, Status: 2, Det: mk(kind, 1, "1")}                 // differs from have only in the (empty) server error text
+			otherText := &Res{OpID: 1, Status: 2, Det: mk(kind, 1, "1"), SErr: "e2"} // ... in another text
+			for _, w := range []*Res{same, miss, noText, otherText} {
 				out = append(out,
 					Case{K: "hasresult", IgnOp: ign, IncSerr: inc, Want: w, Items: []Item{{T: "res", R: have}}},
 					Case{K: "cache", IgnOp: ign, IncSerr: inc, Items: []Item{{T: "res", R: have}, {T: "want", R: w}}},
